@@ -11,11 +11,17 @@ EXTENDS Naturals, Sequences, TLC, Json
 CONSTANT MaxDepth
 Productions == {"sum", "diff", "product", "times", "neg", "factorial", "paren", "frac", "sqrt", "root", "sup", "sub", "subsup",
                 "sumlimits", "integral", "lim", "sin", "log", "fcall", "abs", "binomial", "list", "table2x2", "mixed", "menclose",
-                "eq", "set", "overbar", "underbrace", "interval", "mfencedlist"}
-Arity(p) == CASE p \in {"neg", "factorial", "paren", "sqrt", "sin", "log", "abs", "menclose", "overbar", "lim"} -> 1
-              [] p \in {"sum", "diff", "product", "times", "frac", "root", "sup", "sub", "fcall", "binomial", "eq", "underbrace", "interval"} -> 2
-              [] p \in {"subsup", "sumlimits", "integral", "list", "mixed", "set", "mfencedlist"} -> 3
-              [] p = "table2x2" -> 4
+                "eq", "set", "overbar", "underbrace", "interval", "mfencedlist",
+                \* second batch: scripts on both sides, accents, piecewise and labelled tables, determinants, units and signs after
+                \* a number, a function's prime and base, continued fractions, vectors, ratios, floors and norms
+                "multiscripts", "overarrow", "hat", "cases", "det2x2", "labeledrow", "percent", "degrees", "prime", "logbase",
+                "contfrac", "vector", "ratio", "mod", "floor", "norm"}
+Arity(p) == CASE p \in {"neg", "factorial", "paren", "sqrt", "sin", "log", "abs", "menclose", "overbar", "lim",
+                         "overarrow", "hat", "percent", "degrees", "prime", "floor", "norm"} -> 1
+              [] p \in {"sum", "diff", "product", "times", "frac", "root", "sup", "sub", "fcall", "binomial", "eq", "underbrace", "interval",
+                         "labeledrow", "logbase", "ratio", "mod"} -> 2
+              [] p \in {"subsup", "sumlimits", "integral", "list", "mixed", "set", "mfencedlist", "contfrac", "vector"} -> 3
+              [] p \in {"table2x2", "multiscripts", "cases", "det2x2"} -> 4
 Lit == [p |-> "lit", kids |-> <<>>]
 Mk(p, i, t) == [p |-> p, kids |-> [k \in 1..Arity(p) |-> IF k = i THEN t ELSE Lit]]
 VARIABLES tree, depth
